@@ -841,3 +841,51 @@ def cases_for(prop, tier, seed):
     if prop == "C03":
         return CORPUS.get(prop, []) + prof_layout(g, 400 * k) + [case(common_fragment_adef(g), pick_syntax(g), "api") for _ in range(200 * k)]
     return _cases_for_base4(prop, tier, seed)
+
+
+def nocfg_adef(g):
+    """cfg-free device of the documented language (C19)."""
+    g.reset_names()
+    objs, span = build_tree(g, depth=2, n_top=(1, 4), repeat_p=0.35, ref_p=0.25, cfg_p=0.0, block_p=0.3, neg=True,
+                            field_kw={"conv_p": 0.35, "cfg_p": 0.0, "access_p": 0.35}, block_ref_p=0.12)
+    def fix(o):
+        for key in ("fields", "fields_in", "fields_out"):
+            for f in o.get(key) or []:
+                if f["base"] != "bool" and "end" not in f:
+                    f["end"] = f["start"] + 1
+                cv = f.get("conversion")
+                if cv and "type" in cv and cv["type"].startswith("::"):
+                    cv["type"] = "::ddv_conv::Ty"
+        if o["kind"] == "block":
+            for x in o["objects"]:
+                fix(x)
+    for o in objs:
+        fix(o)
+    cfg = g.config(p=0.4, addr_types=("u16", "i16", "u32", "i32", "i64", "u8"), byte_order_p=0.9)
+    if g.chance(0.6):
+        # no write-only fields: the whole driver is expected to compile (finding F11 is out of the way)
+        if cfg.get("default_field_access") == "WO":
+            cfg["default_field_access"] = "RO"
+        def no_wo(o):
+            for key in ("fields", "fields_in", "fields_out"):
+                for f in o.get(key) or []:
+                    if f.get("access") == "WO":
+                        f["access"] = "RW"
+            if o["kind"] == "block":
+                for x in o["objects"]:
+                    no_wo(x)
+        for o in objs:
+            no_wo(o)
+    return {"config": cfg, "objects": objs}
+
+
+_cases_for_base5 = cases_for
+
+
+def cases_for(prop, tier, seed):
+    thorough = tier == "thorough"
+    g = Gen(seed, stream=int(prop[1:]))
+    k = 10 if thorough else 1
+    if prop == "C19":
+        return CORPUS.get(prop, []) + [case(nocfg_adef(g), pick_syntax(g, (3, 3, 2, 2)), "nocfg") for _ in range(90 * k)]
+    return _cases_for_base5(prop, tier, seed)
